@@ -39,7 +39,7 @@ class Fault(object):
 
 class PipeCore(object):
     def __init__(self, dev, rec=None, clock=None, frag=None, wcap=None, stall='raise', tick=0.0, default_timeout=10.0, fault=None,
-                 log_io=False, exc_timeout=None, rtype=None, write_none=False, exclusive=False):
+                 log_io=False, exc_timeout=None, rtype=None, write_none=False, exclusive=False, boundary=None):
         self.dev = dev
         self.rec = rec or dev.rec
         self.clock = clock or VClock()
@@ -52,6 +52,9 @@ class PipeCore(object):
         self.log_io = log_io
         self.rtype = rtype        # what bulk_read hands out: None (bytes) | 'bytearray' | 'array' (array('B'), as PyUSB does) | 'memoryview' (a view of a receive buffer that is reused by the next read)
         self._rbuf = None
+        self.boundary = boundary       # 'usb': transfers keep their boundaries (header and payload are separate transfers); a read that asks for
+                                       # less than the pending transfer holds overflows and loses it, a read never crosses into the next transfer
+        self.cur_rest = b''
         self.exclusive = exclusive     # like a claimed USB interface: connect() on a transport that was not closed fails with EBUSY
         self.write_none = write_none   # a sendall-style transport: bulk_write sends everything and returns None (the library still accepts that)
         self.exc_timeout = exc_timeout or timeout_class()
@@ -131,6 +134,7 @@ class PipeCore(object):
             raise OSError(errno.EBUSY, 'the transport is still open (it was never closed): resource busy')
         self.dev.on_connect()
         self.cur = b''
+        self.cur_rest = b''
         self.cur_meta = None
         self.hbuf = bytearray()
         self.hwho = set()
@@ -145,7 +149,7 @@ class PipeCore(object):
         self.rec.ev('close')
 
     def have_bytes(self):
-        return bool(self.cur) or bool(self.dev.wire) or (self.dev.lazy and bool(self.dev.ready()))
+        return bool(self.cur) or bool(self.cur_rest) or bool(self.dev.wire) or (self.dev.lazy and bool(self.dev.ready()))
 
     def read(self, n, timeout):
         r = self._call('bulk_read', (n, timeout))
@@ -172,6 +176,22 @@ class PipeCore(object):
             self.cur_meta = m
             self.cur = self.mangle(m) if self.mangle else m['bytes']
             self.cur_len = len(self.cur)
+            if self.boundary == 'usb':
+                self.cur, self.cur_rest = self.cur[:24], self.cur[24:]
+        if self.boundary == 'usb':
+            if n < len(self.cur):
+                lost, self.cur = len(self.cur), b''
+                if self.cur_rest:
+                    self.cur, self.cur_rest = self.cur_rest, b''
+                raise OSError('LIBUSB_ERROR_OVERFLOW: the device sent a transfer of %d bytes, the host asked for %d' % (lost, n))
+            out = self.cur
+            self.cur, self.cur_rest = self.cur_rest, b''
+            if not self.cur:
+                m = self.cur_meta
+                self.rec.ev('rd', _payload=m.get('payload', b''), **m['pk'])
+                if self.on_frame:
+                    self.on_frame(m)
+            return out
         avail = len(self.cur)
         over = max(0, n - avail)
         if over:
